@@ -16,27 +16,13 @@ open Yaql.Gen.LimitFacts Yaql.Limits
 def allowedParams : List (String × String) := [
   -- `#finalize(obj)`: handed to utils.convert_output_data, which iterates nothing except through the
   -- `#iter` limiter (model: Convert.convOut; theorem C08.finalize_bounded; swept dynamically)
-  ("#finalize|yaql._setup_context.<locals>.finalize", "obj"),
-  -- `obj[key]` on a yaqlized host object: the key is matched against the white/black list and handed to
-  -- the host's __getitem__; yaql itself never iterates it
-  ("#indexer|yaqlized.indexation", "key")
+  ("#finalize|yaql._setup_context.<locals>.finalize", "obj")
 ]
 
 /-- parameters whose *elements* are iterated by the payload - each justified -/
 def allowedNested : List (String × String) := [
   -- dict(items): `it = iter(t); key = next(it); value = next(it)` - exactly two pulls per element
   ("dict|collections.dict__", "items")
-]
-
-/-- KNOWN DEFECT (finding `nested-iterators-unlimited`): `list(...)`, `set(...)` descend into every
-    iterator argument and `flatten()` into every iterable element by plain Python recursion, without
-    `limit_iterable`: `list(range(0).repeat())`, `set(range(0).repeat())`, `[[].repeat()].flatten()` never
-    return under yaql.limitIterators.  These rows are excluded from the partial theorem; the check
-    reproduces the non-termination on the real code on every run. -/
-def knownDefectParams : List (String × String) := [
-  ("list|collections.list_", "*"),
-  ("set|collections.set_", "*"),
-  ("flatten|collections.flatten", "collection")
 ]
 
 /-- lambdas whose result is iterated by the payload without `limit_iterable` - each justified -/
@@ -50,18 +36,17 @@ def paramOk (r : ParamRow) : Bool :=
   (r.ty == .limiting || r.ty == .noLazy || !(r.iterates || r.escapes) || allowedParams.contains (r.fn, r.param))
   && (!r.nested || allowedNested.contains (r.fn, r.param))
 
-/-- the full statement: every registered parameter that admits a lazy sequence and is iterated (or escapes
-    the walker) is of a limiting type, and no payload iterates the elements of a parameter unlimited.
-    FALSE today for the rows of `knownDefectParams`. -/
-def consumers_limited_full : Prop := ∀ r ∈ params, paramOk r = true
-
-/-- **C08Gen.consumers_limited** (partial: all rows of the live registry except the three known-defect rows) -/
-theorem consumers_limited_partial : ∀ r ∈ params, paramOk r = true ∨ (r.fn, r.param) ∈ knownDefectParams := by
+/-- **C08Gen.consumers_limited** (full, every row of the live registry): every registered parameter that
+    admits a lazy sequence and is iterated (or escapes the walker) is of a limiting type, and no payload
+    iterates the elements of a parameter unlimited.  (Until /repo fb14b78 the rows `list_:*`, `set_:*`,
+    `flatten:collection` failed it - finding `nested-iterators-unlimited`, now fixed.) -/
+theorem consumers_limited : ∀ r ∈ params, paramOk r = true := by
   decide +kernel
 
-/-- every lambda / producer result that a payload consumes passes through `limit_iterable` -/
+/-- no payload iterates (or hands to opaque code) the result of a lambda / producer it calls, except through
+    `utils.limit_iterable` (`consumed` = some use of the result iterates it un-limited) -/
 theorem producers_limited :
-    ∀ r ∈ producers, r.consumed = false ∨ r.limited = true ∨ (r.fn, r.lam) ∈ allowedProducers := by
+    ∀ r ∈ producers, r.consumed = false ∨ (r.fn, r.lam) ∈ allowedProducers := by
   decide +kernel
 
 /-- non-vacuity: the table is the real registry - it has the limiting rows the sweep relies on, the fixed
@@ -71,6 +56,8 @@ theorem table_nonvacuous :
     50 ≤ (params.filter fun r => r.ty == .admitsLazy).length ∧
     (params.any fun r => r.fn == "len|queries.count_" && r.param == "collection" && r.ty == .limiting) = true ∧
     (producers.any fun r => r.fn == "generateMany|queries.generate_many" && r.limited) = true ∧
+    (params.any fun r => r.fn == "list|collections.list_" && r.param == "*" && r.ty == .admitsLazy && !r.iterates) = true ∧
+    (params.any fun r => r.fn == "flatten|collections.flatten" && r.ty == .limiting && !r.nested) = true ∧
     30 ≤ producers.length := by
   decide +kernel
 
@@ -82,7 +69,14 @@ theorem sizes_ok :
     (Yaql.Gen.Sizes.cfg.strAscii ≤ Yaql.Gen.Sizes.cfg.strLatin1 ∧
      Yaql.Gen.Sizes.cfg.strAscii ≤ Yaql.Gen.Sizes.cfg.strUcs2 ∧
      Yaql.Gen.Sizes.cfg.strAscii ≤ Yaql.Gen.Sizes.cfg.strUcs4) ∧
-    0 < Yaql.Gen.Sizes.cfg.ptr := by
+    0 < Yaql.Gen.Sizes.cfg.ptr ∧ 0 < Yaql.Gen.Sizes.cfg.fdictOverhead := by
+  decide +kernel
+
+/-- before /repo ccc0ee2 `sys.getsizeof` of a FrozenDict was the bare wrapper: the 36952-byte table of
+    `range(1000).aggregate($1.set($2, $2), {})` passed a quota of 1000; measured as now it is refused -/
+theorem frozen_dict_unmeasured_old :
+    limitMemory 1000 [(1, Yaql.Gen.Sizes.cfg.fdictOverhead)] = true ∧
+    limitMemory 1000 [(1, Yaql.Gen.Sizes.cfg.fdictSize 36952)] = false := by
   decide +kernel
 
 /-- **C08.repeat_estimate_safe** for the running interpreter: `left * k` that passes the check fits the quota -/
